@@ -340,6 +340,12 @@ class lodict(odict):
         """
         return super(lodict, self).get(key.lower(), default)
 
+    def insert(self, index, key, val):
+        """
+        Make key lowercase then insert
+        """
+        super(lodict, self).insert(index, key.lower(), val)
+
     def pop(self, key, *default):
         """
         Make key lowercase then pop
